@@ -352,8 +352,8 @@ def run(chk):
 
     # ------------------------------------------------------------------ model vs model: the abstract model at the resolved
     # environment against the concrete mass model of C02/C03 (drv_c02, Model/Mass.lean + Model/CompCalc.lean), fast path and
-    # label path, on the same inputs. The fast path is also bridged by a theorem (Props/C12Concrete.mass_bridge_fast);
-    # the label path of the two models is tied only here and through their separate correspondence with the implementation.
+    # label path, on the same inputs. The fast path is also bridged by a theorem (Props/C12Concrete.mass_bridge_fast), the label
+    # path for plain annotations (mass_bridge_label); labelled annotations with labile / unknown / interval mods are tied here.
     drv2 = os.path.join(core.LEAN, '.lake', 'build', 'bin', 'drv_c02')
     if os.path.exists(drv2):
         from . import c02_common as C2
@@ -482,7 +482,7 @@ def run(chk):
         chk.leanchecker(['PeptVerif.Props.C12', 'PeptVerif.Model.StaticMods', 'PeptVerif.Model.AbsMass', 'PeptVerif.Spec.StaticMods',
                          'PeptVerif.Lemmas.StaticMods', 'PeptVerif.Lemmas.AbsMass', 'PeptVerif.Props.C12Concrete',
                          'PeptVerif.Props.C12Fragment', 'PeptVerif.Model.ConcreteEnv', 'PeptVerif.Lemmas.ConcreteEnv',
-                         'PeptVerif.Lemmas.ConcreteBridge'])
+                         'PeptVerif.Lemmas.ConcreteBridge', 'PeptVerif.Lemmas.ConcreteKeys', 'PeptVerif.Lemmas.ConcreteLabel'])
     return chk.finish(classify)
 
 
